@@ -562,8 +562,10 @@ impl<'r> Gen<'r> {
                 let big = vt.count_nodes() <= 3 && matches!(kt, KeyTy::Str | KeyTy::NewtypeStr(_)) && self.rng.chance(1, 80);
                 let n = if big { *self.rng.pick(&[16usize, 33, 101, 260]) } else { *self.rng.pick(&[0usize, 1, 2, 2, 3, 4]) };
                 let mut kvs: Vec<(Val, Val)> = Vec::new();
+                let kt = &kt.despanned();
                 for i in 0..n {
                     let k = match kt {
+                        KeyTy::SpannedKey(_) => unreachable!("despanned"),
                         KeyTy::Str | KeyTy::NewtypeStr(_) | KeyTy::SpannedStr | KeyTy::NewtypeSpanned(_) if big => Val::Str(format!("k{}", (i * 7919) % 1000)),
                         KeyTy::Str | KeyTy::NewtypeStr(_) | KeyTy::SpannedStr | KeyTy::NewtypeSpanned(_) => {
                             let used: Vec<String> = kvs.iter().filter_map(|(k, _)| if let Val::Str(s) = k { Some(s.clone()) } else { None }).collect();
